@@ -286,7 +286,7 @@ func replaceEntities(b []byte, i int, entitiesMap map[string][]byte, revEntities
 		if b[j] == 'x' {
 			j++
 			c := 0
-			for ; j < len(b) && (b[j] >= '0' && b[j] <= '9' || b[j] >= 'a' && b[j] <= 'f' || b[j] >= 'A' && b[j] <= 'F'); j++ {
+			for ; j < len(b) && c < 10000 && (b[j] >= '0' && b[j] <= '9' || b[j] >= 'a' && b[j] <= 'f' || b[j] >= 'A' && b[j] <= 'F'); j++ {
 				if b[j] <= '9' {
 					c = c<<4 + int(b[j]-'0')
 				} else if b[j] <= 'F' {
